@@ -49,6 +49,12 @@ CHECKS = {
  "C18": dict(cat="exploration", design="§3 C18", technique="repetition until every observed-container iteration order is covered (in-process) plus fresh processes; oracle = byte equality",
    text="For every corpus program, directive-bearing bases and spelling-generator programs, parse+analyze+lower+to_bytes is repeated in one process at least 20 times and until every iteration order of every directive field map (k! for k <= 4) has been observed; three fresh tx3c processes emit the TII; all encodings and files must be byte-identical and the embedded IR equal to the in-process encoding.",
    note="Hash-map order is observed, not chosen (std's hasher keys are per instance); coverage of orders is measured and reported; publish directives (5 fields) require 24 distinct orders."),
+ "C05": dict(cat="model_checking", design="§3 C05", technique="explicit-state exploration of the fee map's orbit (each transition executes the real round) over an exhaustive protocol-parameter grid",
+   text="Rounds of the resolve loop are transitions of the system fee -> transaction -> fee; every transition executes the real apply_fees / compiler ops / reduce / inputs::resolve / compile. For every configuration of the grid (coefficient x constant x margin x utxo cost, plus CBOR width windows) and each of 14 template/store scenarios the orbit is followed to a fixed point, a cycle or 32 rounds and resolve_tx is called: whatever it returns must have body fee = reported fee = coefficient*|payload| + constant + margin, be reproduced by one more round, and balance against the store.",
+   note="States are (configuration, scenario, compiled transaction) nodes, merged by byte equality of the compiled result; model = implementation, so every transition is validated by construction; round budget 10 as caller's argument."),
+ "C20": dict(cat="model_checking", design="§3 C20", technique="explicit-state breadth-first search over histories of a real Compiler instance, state key = latest_tx_body bytes, invariant checked in every state for every target",
+   text="A state is a history of resolutions / direct compilations replayed on a fresh identically configured tx3_cardano::Compiler, identified by the bytes of latest_tx_body (the other fields are asserted unchanged at every transition). From every reachable state every one of 11 actions is executed on a replica and its outcome (payload, hash, fee | error kind | panic) compared with the outcome on a fresh instance. Every transition is an execution of resolve_tx / compile.",
+   note="The reachable state space closes after one step when the property holds (the state is the last compiled body); depth bound 3 (thorough 4); 2 stores x 2 protocol-parameter sets."),
 }
 PENDING = {}
 
